@@ -7,7 +7,13 @@
     {market item, account item, market reconnecting, account reconnecting} x exchanges; market
     items and both notices name the exchange by id, account items by index.  [valid_history]
     only says every event names a tracked exchange (an unknown exchange makes the code panic,
-    see Pins/C14.v).  All statements are about [run (init_engine ids) h], the engine after the
+    see Pins/C14.v).  An "item" is ANY MarketStreamEvent::Item / AccountStreamEvent::Item,
+    whatever its payload (public trade, L1/L2 book, candle, liquidation; account snapshot,
+    balance, order snapshot in any state including OpenFailed(Connectivity(Timeout)), cancel
+    response Ok or Err of any error class, trade): EngineState::update_from_account /
+    update_from_market update connectivity before they look at the payload, so the model's
+    [MarketItem] / [AccountItem] carry no payload and the theorems hold for every item kind.
+    The correspondence check feeds every kind (Corr/C14.v, [c_kinds]).  All statements are about [run (init_engine ids) h], the engine after the
     whole history, starting from the all-reconnecting state. *)
 From BV Require Import Base.Common Model.Connectivity Proofs.Connectivity.
 
